@@ -523,8 +523,11 @@ func init() {
 		Rule:  "a wholly-known concrete value c (nulls at any depth) and an abstract value a obtained by weakening sub-values of c to unknowns that admit them (unrefined, not-null, numeric bounds, string prefixes, length bounds, DynamicVal when the target is placeholder-free); non-trivial when something was weakened, the target differs from c's type and Convert(c) succeeds; then Convert(a) must succeed and Admits(Convert(a), Convert(c))",
 		Quick: 100000, Thorough: 400000,
 		Gen: func(t *rapid.T) SoundIn {
-			if rapid.IntRange(0, 7).Draw(t, "dupmode") == 7 {
+			switch rapid.IntRange(0, 15).Draw(t, "dupmode") {
+			case 14, 15:
 				return genSoundDup(t)
+			case 13:
+				return genSoundMerge(t)
 			}
 			o := soundOpts
 			if rapid.IntRange(0, 3).Draw(t, "fullvalues") == 0 {
@@ -779,6 +782,66 @@ func genSoundDup(t *rapid.T) SoundIn {
 		a.Ref = r
 	}
 	return SoundIn{C: convgen.Case{V: c, Target: target, Edits: []string{edit}}, A: a, Kinds: kinds}
+}
+
+// genSoundMerge draws a set (or list) of DISTINCT members that the element
+// conversion of the target merges (the strings "1", "1.0", "1e0" are one
+// number; objects that differ only in an attribute the target drops), and an
+// unknown collection of the source type that admits it through length bounds:
+// the converted set is shorter than its source.
+func genSoundMerge(t *rapid.T) SoundIn {
+	var members []spec.V
+	var srcE, dstE spec.T
+	switch rapid.IntRange(0, 3).Draw(t, "mergekind") {
+	case 0:
+		srcE, dstE = spec.String, spec.Number
+		for _, s := range []string{"1", "1.0", "1e0", "01", "1.00"} {
+			members = append(members, spec.KnownStr(s))
+		}
+	case 1:
+		srcE, dstE = spec.String, spec.Bool
+		for _, s := range []string{"true", "1"} {
+			members = append(members, spec.KnownStr(s))
+		}
+	case 2:
+		srcE = spec.Object(spec.Attr{Name: "a", T: spec.String}, spec.Attr{Name: "b", T: spec.Number})
+		dstE = spec.Object(spec.Attr{Name: "a", T: spec.String})
+		for i := 0; i < 4; i++ {
+			members = append(members, spec.V{T: srcE, St: spec.Known, Keys: []string{"a", "b"}, Elems: []spec.V{spec.KnownStr("x"), spec.KnownNum(spec.NInt(int64(i)))}})
+		}
+	default:
+		srcE, dstE = spec.Tuple(spec.String), spec.List(spec.Number)
+		for _, s := range []string{"2", "2.0", "2e0"} {
+			members = append(members, spec.V{T: srcE, St: spec.Known, Elems: []spec.V{spec.KnownStr(s)}})
+		}
+	}
+	k := rapid.IntRange(2, len(members)).Draw(t, "members")
+	members = members[:k]
+	if rapid.Bool().Draw(t, "extra") && srcE.K == spec.KString && dstE.K == spec.KNumber {
+		members = append(members, spec.KnownStr("7"))
+	}
+	c := spec.V{St: spec.Known, Elems: members}
+	edit := "set>set/merge"
+	if rapid.IntRange(0, 3).Draw(t, "fromlist") == 0 {
+		c.T = spec.List(srcE)
+		edit = "list>set/merge"
+	} else {
+		c.T = spec.Set(srcE)
+	}
+	a := spec.UnknownOf(c.T)
+	kinds := []string{"merge"}
+	r := &spec.Ref{}
+	if rapid.IntRange(0, 3).Draw(t, "notnull") != 0 {
+		r.Null = "notnull"
+		kinds = append(kinds, "notnull")
+	}
+	lo := rapid.IntRange(0, len(members)).Draw(t, "minlen")
+	lo = len(members) - lo // rapid favours small draws: favour the tight bound
+	hi := len(members) + rapid.IntRange(0, 1).Draw(t, "maxlenextra")
+	r.MinLen, r.MaxLen = &lo, &hi
+	kinds = append(kinds, "minlen", "maxlen")
+	a.Ref = r
+	return SoundIn{C: convgen.Case{V: c, Target: spec.Set(dstE), Edits: []string{edit}}, A: a, Kinds: kinds}
 }
 
 // ---------------------------------------------------------------- round trips
